@@ -488,6 +488,7 @@ theorem step_coh (s : State) (op : Op) (hop : op.eagerCommitFail = false) (h : C
   | unlockPass p => exact stepUnlockPass_coh s p h
   | chPass priv old new => exact stepChPass_coh s priv old new h
   | chBoth po pn vo vn => exact stepChBothWith_coh false s po pn vo vn h
+  | restart => exact ⟨fun _ _ _ hx => (by cases hx), h.bound⟩
 
 theorem init_coh : Coh init.disk init.mem := by
   refine ⟨?_, ?_⟩
